@@ -18,7 +18,10 @@ RULE = (
     "deduplication/rollup/decoys flags, text or Parquet, 1-3 collections with/without prefixes, confidence and "
     "merge chunk sizes from 1 to n+1); the real assign_confidence is run and every result file is read back; "
     "distinct = distinct (key structure, score ranks, flags, chunk sizes); non-trivial = some spectrum or entity has "
-    ">= 2 PSMs (competition actually happens)"
+    ">= 2 PSMs (competition actually happens); the whole destination directory (file set; rows and q-values of every "
+    "file in file order) is compared with the model of the loop over collections; roll-up tool cases = (--level value, "
+    "text or Parquet result files of 1-3 collections, optionally one unsorted input file, optionally a second run with "
+    "destination = source); compute_rollup_levels on the default and on random parent maps"
 )
 
 LEVELS = ("ModifiedPeptide", "Precursor", "PeptideGroup")
@@ -35,7 +38,7 @@ def gen_case(rng, tier):
         rollup=rng.random() < 0.8,
         decoys=rng.random() < 0.8,
         fmt=rng.choice(["pin", "pin", "parquet"]),
-        ties=rng.random() < 0.35,
+        tie_mode=rng.choice(["none"] * 13 + ["any"] * 4 + ["cross"] * 3),
         ncoll=ncoll,
         prefixes=(rng.random() < 0.6) if ncoll > 1 else (rng.random() < 0.3),
         enc=rng.choice(["pm1", "01", "bool"]),
@@ -44,11 +47,18 @@ def gen_case(rng, tier):
         data_seed=rng.randrange(1 << 30),
     )
     case["center"] = rng.random() < 0.5
+    if ncoll > 1 and rng.random() < 0.3:
+        # some collections with a prefix of their own, the others sharing the un-prefixed files
+        mask = [rng.random() < 0.5 for _ in range(ncoll)]
+        if all(mask) or not any(mask):
+            mask[rng.randrange(ncoll)] ^= True
+        case["prefix_mask"] = mask
     case["cconf"] = rng.choice([1, 2, 3, 5, 7, "n-1", "n", "n+1", 10 ** 6])
     case["cmerge"] = rng.choice([1, 2, 3, 7, "n+1", 20000])
     case["rg"] = rng.choice([1, 2, 5, None])
     if not case["decoys"]:
-        case["ties"] = False
+        case["tie_mode"] = "none"
+    case["ties"] = case["tie_mode"] != "none"
     # the PEP kernel (C06) is stubbed on most small tables, where the estimators are degenerate
     case["pep"] = "real" if (n_spec >= 20 and rng.random() < 0.5) else "stub"
     return case
@@ -66,7 +76,14 @@ def build_tables(case):
             rowid=False,
         )
         df["SpecId"] = [f"c{k}_{i}" for i in range(len(df))]
-        if case["ties"]:
+        if case.get("tie_mode") == "cross":
+            # ties only ACROSS spectra: 8 * (coarse value) + position of the row inside its spectrum
+            pos, cnt = [], {}
+            for sn in df["ScanNr"]:
+                pos.append(cnt.get(sn, 0))
+                cnt[sn] = pos[-1] + 1
+            score = np.array([float(8 * r.randint(0, max(2, len(df) // 3)) + p_) for p_ in pos])
+        elif case["ties"]:
             score = np.array([float(r.randint(0, max(2, len(df) // 3))) for _ in range(len(df))])
         else:
             score = df["feat0"].values.astype(float)
@@ -190,6 +207,30 @@ def check_collection(chk, case, k, df, score, files, level_names, lines_out):
                 if want != [r_["q"] for r_ in lvl_rows[ln]["t"]]:
                     spec_ok = False
                     clause = f"level {ln}: q-value column differs from the C01 formula on the retained rows"
+    if case["ties"] and case["decoys"]:
+        # C03_levelSpec_unique_rows_groupwise: with ties only ACROSS groups the retained rows are determined
+        # (as a set) although their order is not -> compare the sets with the model
+        def groupwise_free(inp, keyf):
+            seen = set()
+            for r_ in inp:
+                kk = (keyf(r_), r_[4])
+                if kk in seen:
+                    return False
+                seen.add(kk)
+            return True
+
+        got_psm = sorted(r["i"] for r in merged_level(lvl_rows["psms"]["t"], lvl_rows["psms"]["d"]))
+        psm_determined = (not case["dedup"]) or groupwise_free(rows, lambda r_: r_[1])
+        if psm_determined:
+            chk.count("groupwise_tiefree_sets", "psms")
+            if got_psm != sorted(m_psm):
+                model_ok = False
+            for l, lname in enumerate(level_names[1:]):
+                if groupwise_free([rows[i] for i in got_psm], lambda r_, l=l: r_[2][l]):
+                    chk.count("groupwise_tiefree_sets", lname)
+                    got_l = sorted(r["i"] for r in merged_level(lvl_rows[lname]["t"], lvl_rows[lname]["d"]))
+                    if got_l != sorted(m_lv[l]):
+                        model_ok = False
     info = dict(case=case, collection=k, clause=clause, problems=[list(p) for p in problems[:5]],
                 impl={ln: dict(t=[r["i"] for r in v["t"]], d=[r["i"] for r in v["d"]]) for ln, v in lvl_rows.items()},
                 model=dict(psms=m_psm, levels=m_lv))
@@ -204,6 +245,64 @@ def check_collection(chk, case, k, df, score, files, level_names, lines_out):
         chk.corr_break("conf", info)
 
 
+def check_directory(chk, case, tabs, out, prefixes, level_names, cconf):
+    """whole destination directory vs the model of the loop over collections (`confrun`: chunked sort, modelled
+    merge_sort, batched scan, chunk-wise writer, initialise/append per prefix): the set of result files, and - when
+    tie-free - every file's rows and q-values in file order (collections without prefix share files)."""
+    nlev = len(level_names) - 1
+    level_cols = ["Peptide"] + case["levels"] if case["rollup"] else []
+    colls, offs, off = [], [], 0
+    for k, (df, score) in enumerate(tabs):
+        spectrum_cols = [c for c in ("filename", "ScanNr", "ret_time", "ExpMass") if c in df.columns]
+        rows = P.table_rows(df, spectrum_cols, level_cols, score)
+        colls.append([k if prefixes[k] else -1, [[r[0] + off] + r[1:] for r in rows]])
+        offs.append(off)
+        off += len(df)
+    resp = common.driver_batch([req("confrun", cconf, case["dedup"], nlev, case["decoys"], colls)])[0].strip()
+    if resp.startswith("reject"):
+        chk.corr_break("confrun", dict(case=case, model=resp, clause="model raises, real code did not"))
+        return
+    model = {}
+    for pre, dec_, lvl, lines in dec(resp):
+        nm = (f"p{pre}." if int(pre) >= 0 else "") + ("decoys." if a_bool(dec_) else "targets.") + level_names[int(lvl)]
+        model[nm] = None if lines == "absent" else [(int(i), rounded(a_rat(q))) for i, q in lines]
+    want_names = {nm for nm, v in model.items() if v is not None}
+    # restated independently: per prefix (or once without prefixes) and level one targets file, a decoys file iff asked
+    spec_names = {(f"{pre}." if pre else "") + w + ln for pre in set(prefixes) for ln in level_names
+                  for w in (("targets.", "decoys.") if case["decoys"] else ("targets.",))}
+    got_names = {f.name for f in out.iterdir()}
+    if got_names != spec_names:
+        chk.spec_violation("result-file-set", dict(case=case, clause="set of result files differs from one targets (and "
+                           "decoys) file per prefix and level", impl=sorted(got_names), expected=sorted(spec_names)))
+        return
+    if want_names != spec_names:
+        chk.corr_break("confrun", dict(case=case, model=sorted(want_names), impl=sorted(got_names)))
+        return
+    for nm in sorted(spec_names):
+        f = P.read_result(out / nm)
+        if "PSMId" not in f.columns or "q-value" not in f.columns or "score" not in f.columns:
+            chk.spec_violation("result-file-header", dict(case=case, file=nm, impl=[str(c) for c in f.columns][:8],
+                               clause="result file without its header line"))
+            return False
+    chk.count("directory_compared", "names+rows" if not case["ties"] else "names")
+    if case["ties"]:
+        return
+    for nm in sorted(spec_names):
+        f = P.read_result(out / nm)
+        got, order = [], []
+        for sid, q in zip(f["PSMId"].astype(str), f["q-value"]):
+            k_, i_ = sid[1:].split("_")
+            got.append((offs[int(k_)] + int(i_), float(q)))
+            order.append(int(k_))
+        if any(a > b for a, b in zip(order, order[1:])):
+            chk.spec_violation("collections-order", dict(case=case, file=nm, clause="rows of collections without prefix "
+                               "are not appended collection after collection", impl=order))
+            return
+        if got != model[nm]:
+            chk.corr_break("confrun", dict(case=case, file=nm, impl=got[:40], model=model[nm][:40]))
+            return
+
+
 def run_case(chk, case):
     tabs = build_tables(case)
     n = max(len(df) for df, _ in tabs)
@@ -215,7 +314,10 @@ def run_case(chk, case):
             scores.append(score)
         out = d / "out"
         out.mkdir()
-        prefixes = [f"p{k}" for k in range(case["ncoll"])] if case["prefixes"] else [None] * case["ncoll"]
+        mask = case.get("prefix_mask")
+        if not mask or len(mask) != case["ncoll"]:
+            mask = [bool(case["prefixes"])] * case["ncoll"]
+        prefixes = [f"p{k}" if mask[k] else None for k in range(case["ncoll"])]
         level_cols = ["Peptide"] + case["levels"] if case["rollup"] else []
         level_names = ["psms"] + [P.LEVEL_FILE[c] for c in level_cols]
         try:
@@ -236,12 +338,15 @@ def run_case(chk, case):
             return
         chk.count("fmt", case["fmt"]); chk.count("dedup", case["dedup"]); chk.count("rollup", case["rollup"])
         chk.count("decoys", case["decoys"]); chk.count("ties", case["ties"]); chk.count("ncoll", case["ncoll"])
-        chk.count("prefixes", case["prefixes"]); chk.count("cconf", str(case["cconf"])); chk.count("scores_straddle_zero", bool(case.get("center")))
+        chk.count("prefixes", "mixed" if (any(mask) and not all(mask)) else case["prefixes"]); chk.count("cconf", str(case["cconf"])); chk.count("scores_straddle_zero", bool(case.get("center")))
         chk.count("cmerge", str(case["cmerge"])); chk.count("nlevels", len(level_names))
+        chk.count("tie_mode", case.get("tie_mode", "any" if case["ties"] else "none"))
         # leftovers: no intermediate files (also C09)
         left = [f.name for f in out.iterdir() if "scores_metadata" in f.name or f.name.split(".")[-1] in ("pin", "parquet")]
         if left:
             chk.spec_violation("intermediates-left", dict(case=case, files=left, clause="intermediate files remain"))
+        if check_directory(chk, case, tabs, out, prefixes, level_names, csize(case["cconf"], n)) is False:
+            return
         for k, (df, score) in enumerate(tabs):
             files = {}
             for ln in level_names:
@@ -264,101 +369,286 @@ def run_case(chk, case):
 ROLLUP_LEVELS = [("precursor", "Precursor"), ("modified_peptide", "ModifiedPeptide"), ("peptide", "peptide"),
                  ("peptide_group", "PeptideGroup")]          # order of brew_rollup.compute_rollup_levels("psm")
 
+# restated from the documentation of the tool, NOT read from the code under test
+STD_COL = {"SpecId": "psm_id", "PSMId": "psm_id", "Precursor": "precursor", "pcm": "precursor", "PCM": "precursor",
+           "Peptide": "peptide", "PeptideGroup": "peptide_group", "peptidegroup": "peptide_group",
+           "ModifiedPeptide": "modified_peptide", "modifiedpeptide": "modified_peptide", "q-value": "q_value"}
+PARENTS = [("precursor", "psm"), ("modified_peptide", "precursor"), ("peptide", "modified_peptide"),
+           ("peptide_group", "precursor")]
+CLI_LEVELS = ["psm", "precursor", "modifiedpeptide", "peptide", "peptidegroup"]
+BASE_FILES = {"psm": "psms", "precursor": "precursors", "peptide": "peptides", "modifiedpeptide": "modifiedpeptides",
+              "peptidegroup": "peptidegroups"}
+BASE_NEEDS = {"precursor": "Precursor", "modifiedpeptide": "ModifiedPeptide", "peptidegroup": "PeptideGroup"}
 
-def rollup_case(chk, rng):
-    """stand-alone roll-up tool on result files written by assign_confidence (with extra level columns whose
-    ids are deliberately NOT nested in one another: a precursor may belong to several peptide groups)"""
+
+def reachable(base, parents):
+    """levels reachable from `base` through child->parent links, as a set (breadth-first over the children map;
+    independent of the pass-until-no-change loop of the code and of the model)"""
+    kids = {}
+    for c, p_ in parents:
+        kids.setdefault(p_, []).append(c)
+    seen, todo = {base}, [base]
+    while todo:
+        x = todo.pop()
+        for c in kids.get(x, []):
+            if c not in seen:
+                seen.add(c)
+                todo.append(c)
+    return seen
+
+
+def rollup_levels_check(chk, rng, n_random):
+    """`compute_rollup_levels` (public, brew_rollup.py) vs the model `rolluplevels` and vs reachability, on the
+    default parent map for every accepted --level and on random parent maps; the constants vs the model's copy"""
     BR = P.mod("mokapot.brew_rollup")
     import contextlib, io
 
-    case = dict(n_spectra=rng.choice([6, 12, 25]), max_per=rng.choice([1, 2, 3]),
-                levels=[c for c in ("ModifiedPeptide", "Precursor", "PeptideGroup") if rng.random() < 0.6],
+    d0 = dec(common.driver_batch([req("rollupdefault")])[0])
+    m_par = [(common.a_str(c), common.a_str(p_)) for c, p_ in d0[0]]
+    m_cli = [common.a_str(x) for x in d0[1]]
+    if list(BR.DEFAULT_PARENT_LEVELS.items()) != m_par or m_par != PARENTS:
+        chk.corr_break("rollupdefault", dict(clause="DEFAULT_PARENT_LEVELS differs from the model's table",
+                                             impl=list(BR.DEFAULT_PARENT_LEVELS.items()), model=m_par))
+    m_std = [(common.a_str(c), common.a_str(p_)) for c, p_ in d0[2]]
+    if list(BR.STANDARD_COLUMN_NAME_MAP.items()) != m_std or dict(m_std) != STD_COL:
+        chk.corr_break("rollupdefault", dict(clause="STANDARD_COLUMN_NAME_MAP differs from the model's table",
+                                             impl=list(BR.STANDARD_COLUMN_NAME_MAP.items()), model=m_std))
+    for x in m_cli + ["protein"]:
+        try:
+            with contextlib.redirect_stderr(io.StringIO()):
+                ok = BR.parse_arguments(["--level", x]).level == x
+        except SystemExit:
+            ok = False
+        if ok != (x in CLI_LEVELS):
+            chk.corr_break("rollupdefault", dict(clause=f"--level {x}: accepted={ok}", model=m_cli))
+    maps = [(b, PARENTS) for b in CLI_LEVELS]
+    for _ in range(n_random):
+        names = "abcdefg"[: rng.choice([2, 3, 4, 5, 7])]
+        par = []
+        for c in rng.sample(list(names), rng.randint(0, len(names))):
+            par.append((c, rng.choice(names)))
+        maps.append((rng.choice(names), par))
+    resp = common.driver_batch([req("rolluplevels", b, [[c, p_] for c, p_ in par]) for b, par in maps])
+    for (b, par), r in zip(maps, resp):
+        model = [common.a_str(x) for x in dec(r)]
+        impl = BR.compute_rollup_levels(b, dict(par))
+        chk.case(None, ("rollup-levels", b, tuple(par)) if par else None, sample=dict(base=b, parents=par, levels=impl))
+        chk.count("rollup-level-maps", "default" if par is PARENTS else f"random-{len(par)}")
+        if set(impl) != reachable(b, par) or len(set(impl)) != len(impl) or impl[:1] != [b]:
+            chk.spec_violation("rollup-levels", dict(case=dict(base=b, parents=par), impl=impl,
+                                                     expected=sorted(reachable(b, par)),
+                                                     clause="levels are not exactly those reachable from the base level"))
+        elif impl != model:
+            chk.corr_break("rolluplevels", dict(case=dict(base=b, parents=par), impl=impl, model=model))
+
+
+ROLLUP_BASES = ["psm", "psm", "psm", "precursor", "precursor", "peptide", "modifiedpeptide", "peptidegroup"]
+
+
+def gen_rollup(rng, base=None):
+    base = base or rng.choice(ROLLUP_BASES)
+    levels = [c for c in ("ModifiedPeptide", "Precursor", "PeptideGroup") if rng.random() < 0.6]
+    if base in BASE_NEEDS and BASE_NEEDS[base] not in levels:
+        levels = [c for c in ("ModifiedPeptide", "Precursor", "PeptideGroup") if c in levels or c == BASE_NEEDS[base]]
+    return dict(n_spectra=rng.choice([6, 12, 25]), max_per=rng.choice([1, 2, 3]), levels=levels,
                 ncoll=rng.choice([1, 2, 3]), data_seed=rng.randrange(1 << 30), npep=rng.choice([3, 6, 12]), enc="pm1",
-                optional=("ExpMass",), ties=False)
+                optional=("ExpMass",), ties=False, base=base, parquet=rng.random() < 0.3,
+                unsorted=rng.random() < 0.15, rerun=rng.random() < 0.35, tool_ties=rng.random() < 0.3)
+
+
+def rollup_case(chk, rng):
+    run_rollup(chk, gen_rollup(rng))
+
+
+def run_rollup(chk, case):
+    """stand-alone roll-up tool on result files written by assign_confidence (with extra level columns whose
+    ids are deliberately NOT nested in one another: a precursor may belong to several peptide groups); every accepted
+    --level; text or Parquet input; an unsorted input file; a second run with the source directory as destination"""
+    BR = P.mod("mokapot.brew_rollup")
+    import contextlib, io, random
+
+    base = case.get("base", "psm")
     tabs = build_tables(case)
-    import random
     r = random.Random(case["data_seed"] + 1)
     tabs2 = []
     for off, (df, score) in enumerate(tabs):
         df = df.copy()
         pre = ["" if x == 1 else "decoy_" for x in df["Label"]]
         if "PeptideGroup" in df.columns:     # groups independent of the peptide
-            df["PeptideGroup"] = [p_ + f"G{r.randrange(4)}" for p_ in pre]
+            # with ties: targets and decoys SHARE peptide groups, so that a target/decoy tie decides a group
+            df["PeptideGroup"] = [("" if case.get("tool_ties") else p_) + f"G{r.randrange(4)}" for p_ in pre]
         if "Precursor" in df.columns:
             df["Precursor"] = [p_ + f"pre{r.randrange(6)}" for p_ in pre]
-        tabs2.append((df, score * 8 + off))           # distinct scores across collections
+        if case.get("tool_ties"):
+            # few score values, independent of the label: the best target and the best decoy of a group often tie
+            tabs2.append((df, np.array([float(r.randrange(4)) for _ in range(len(df))])))
+        else:
+            tabs2.append((df, score * 8 + off))           # distinct scores across collections
+
+    def tool(src_dir, dest_dir):
+        with contextlib.redirect_stdout(io.StringIO()), contextlib.redirect_stderr(io.StringIO()), \
+                P.pep_kernel(stub=True):
+            BR.main(["--level", base, "-s", str(src_dir), "-d", str(dest_dir), "-r", "roll"])
+
     with P.workdir() as d:
         datasets = [mkdata.read_dataset(mkdata.write_table(df, d / f"in{k}.pin")) for k, (df, _) in enumerate(tabs2)]
         src = d / "src"; src.mkdir(); dest = d / "dest"; dest.mkdir()
+        with P.pep_kernel(stub=True):
+            P.run_assign_confidence(datasets, [s for _, s in tabs2], src,
+                                    prefixes=[f"p{k}" for k in range(len(tabs2))], decoys=True, do_rollup=True)
+        in_names = [f"p{k}.{w}.{BASE_FILES[base]}" for w in ("targets", "decoys") for k in range(len(tabs2))]
+        if any(P.read_result(src / nm) is None for nm in in_names):
+            chk.spec_violation("missing-file", dict(case=case, clause="input file of the roll-up tool was not written"))
+            return
+        if any(len(P.read_result(src / nm)) == 0 for nm in in_names):
+            chk.reject("rollup-input-file-without-rows")   # column types of an empty file cannot be inferred
+            return
+        sfx = ""
+        if case.get("parquet"):
+            pqd = d / "pq"; pqd.mkdir(); sfx = ".parquet"
+            for nm in in_names:
+                P.read_result(src / nm).to_parquet(pqd / (nm + sfx), index=False)
+            src = pqd
+        chk.count("rollup-tool-base", base); chk.count("rollup-tool-input", "parquet" if sfx else "text")
+        # the rows the tool reads, in the order of its readers: targets files by name, then decoys files
+        frames = [(nm, P.read_result(src / (nm + sfx))) for nm in in_names]
+        cols = [STD_COL.get(c, c) for c in frames[0][1].columns] + ["is_decoy"]
+        cands = [ln for ln, _ in ROLLUP_LEVELS if ln in cols]
+        incol = {STD_COL.get(c, c): c for c in frames[0][1].columns}
+        ids = [dict() for _ in cands]
+        allrows, meta, tfiles, dfiles = [], {}, [], []
+        for nm, f in frames:
+            rows_f = []
+            for _, rec in f.iterrows():
+                i = len(allrows)
+                keys = [ids[l].setdefault(rec[incol[ln]], len(ids[l])) for l, ln in enumerate(cands)]
+                row = [i, i, keys, ".targets." in nm, int(rec["score"])]
+                allrows.append(row); rows_f.append(row)
+                meta[rec["PSMId"]] = i
+            (tfiles if ".targets." in nm else dfiles).append(rows_f)
+        if case.get("unsorted"):
+            big = [(nm, f) for nm, f in frames if f["score"].nunique() >= 2]
+            if big:
+                nm, f = big[0]
+                g = f.iloc[::-1]
+                if sfx:
+                    g.to_parquet(src / (nm + sfx), index=False)
+                else:
+                    g.to_csv(src / nm, sep="\t", index=False)
+                fl = tfiles if ".targets." in nm else dfiles
+                idx = [n_ for n_ in in_names if (".targets." in n_) == (".targets." in nm)].index(nm)
+                fl[idx] = fl[idx][::-1]
+                mresp = common.driver_batch([req("rolluprun", base, cols, cands, tfiles, dfiles)])[0].strip()
+                chk.case(None, ("rollup-unsorted", case["data_seed"], base), sample=dict(rollup=case))
+                chk.count("rollup-tool-unsorted-input", 1)
+                try:
+                    tool(src, dest)
+                except (Exception, SystemExit) as e:
+                    if mresp != "reject-unsorted":
+                        chk.corr_break("rolluprun", dict(case=case, impl=type(e).__name__, model=mresp))
+                    return
+                chk.spec_violation("rollup-unsorted-accepted", dict(case=case, file=nm, clause="an input file that is "
+                                   "not sorted by descending score was rolled up instead of being refused"))
+                return
         try:
-            with P.pep_kernel(stub=True):
-                P.run_assign_confidence(datasets, [s for _, s in tabs2], src,
-                                        prefixes=[f"p{k}" for k in range(len(tabs2))], decoys=True, do_rollup=True)
-            with contextlib.redirect_stdout(io.StringIO()), contextlib.redirect_stderr(io.StringIO()), \
-                    P.pep_kernel(stub=True):
-                BR.main(["--level", "psm", "-s", str(src), "-d", str(dest), "-r", "roll"])
+            tool(src, dest)
         except SystemExit:
             chk.reject("rollup-exit"); return
         except Exception as e:
-            if any(len(P.read_result(f)) == 0 for f in src.glob("*.psms")):
-                chk.reject("rollup-input-file-without-rows")   # column types of an empty file cannot be inferred
-                return
             chk.spec_violation("rollup-exception:" + type(e).__name__, dict(case=case, error=str(e)[:300], clause="brew_rollup raised"))
             return
-        # merged input rows = all rows of the psm result files
-        first = P.read_result(src / "p0.targets.psms")
-        present = [(ln, col) for ln, col in ROLLUP_LEVELS if col in first.columns]
-        ids = [dict() for _ in present]
-        allrows, meta = [], {}
-        if any(len(P.read_result(src / f"p{k}.{w}.psms")) == 0 for k in range(len(tabs2)) for w in ("targets", "decoys")):
-            chk.reject("rollup-input-file-without-rows")
+        merged = sorted(allrows, key=lambda r_: -r_[4])
+        resp = common.driver_batch([req("rolluptool", len(cands), merged), req("rolluprun", base, cols, cands, tfiles, dfiles)])
+        model = [[int(x) for x in lv] for lv in dec(resp[0])]
+        if resp[1].strip().startswith("reject"):
+            chk.corr_break("rolluprun", dict(case=case, model=resp[1].strip(), clause="model raises, the tool did not"))
             return
-        for k in range(len(tabs2)):
-            for which in ("targets", "decoys"):
-                f = P.read_result(src / f"p{k}.{which}.psms")
-                for _, rec in f.iterrows():
-                    i = len(allrows)
-                    keys = [ids[l].setdefault(rec[col], len(ids[l])) for l, (_, col) in enumerate(present)]
-                    allrows.append([i, i, keys, which == "targets", int(rec["score"])])
-                    meta[rec["PSMId"]] = i
-        merged = sorted(allrows, key=lambda r: -r[4])
-        model = [[int(x) for x in lv] for lv in dec(common.driver_batch([req("rolluptool", len(present), merged)])[0])]
+        mrun = {common.a_str(o[0]): ([(int(i), rounded(a_rat(q))) for i, q in o[1]],
+                                     [(int(i), rounded(a_rat(q))) for i, q in o[2]]) for o in dec(resp[1])}
+        # which levels: independent restatement = the level named by --level (as a column name) and every level
+        # below it in the documented hierarchy, restricted to the columns present
+        base_col = STD_COL.get(base, base)
+        spec_levels = reachable(base_col, PARENTS) & set(cols)
+        got_files = {f.name for f in dest.iterdir()}      # the temporary level files of the tool included: none may remain
+        want_files = {f"roll.{w}.{ln}s{sfx}" for ln in spec_levels for w in ("targets", "decoys")}
         ok_spec, ok_model, clause = True, True, None
+        if base != "psm" and base_col in cols and not {f"roll.{w}.{base_col}s{sfx}" for w in ("targets", "decoys")} <= got_files:
+            # every accepted --level whose input files exist and carry the level's column yields that level's files
+            chk.case(None, ("rollup", case["data_seed"], base), sample=dict(rollup=case))
+            chk.spec_violation("rollup-level-dead-end", dict(case=case, impl=sorted(got_files), expected=sorted(want_files),
+                               clause=f"--level {base}: the input files carry the column {base_col} but no result "
+                                      f"files of that level were written"))
+            return
+        if got_files != want_files:
+            chk.case(None, ("rollup", case["data_seed"], base), sample=dict(rollup=case))
+            chk.spec_violation("rollup-level-set", dict(case=case, impl=sorted(got_files), expected=sorted(want_files),
+                                                        clause="the tool did not write exactly the level of --level and the levels below it"))
+            return
+        if set(mrun) != spec_levels:
+            ok_model = False
         reqs, plan = [], []
-        for l, (ln, _col) in enumerate(present):
-            t = P.read_result(dest / f"roll.targets.{ln}s"); dd = P.read_result(dest / f"roll.decoys.{ln}s")
-            if t is None or dd is None:
-                chk.spec_violation("rollup-missing-file", dict(case=case, clause=f"roll.targets.{ln}s missing")); return
+        for ln in sorted(spec_levels):
+            l = cands.index(ln)
+            t = P.read_result(dest / f"roll.targets.{ln}s{sfx}"); dd = P.read_result(dest / f"roll.decoys.{ln}s{sfx}")
             idcol = "psm_id" if "psm_id" in t.columns else "PSMId"
             got = sorted([(meta[x], True) for x in t[idcol]] + [(meta[x], False) for x in dd[idcol]],
                          key=lambda z: -allrows[z[0]][4])
             if any(allrows[i][3] != tt for i, tt in got):
                 ok_spec, clause = False, "target/decoy routed to the wrong file"
             reqs.append(req("levelspec", l, merged, [allrows[i] for i, _ in got])); plan.append(ln)
-            if [i for i, _ in got] != model[l]:
+            if not case.get("tool_ties") and [i for i, _ in got] != model[l]:
                 ok_model = False
+            # a score tie between a target and a decoy of one entity is never decided for the target
+            for i, tt in got:
+                if tt and any((not r_[3]) and r_[2][l] == allrows[i][2][l] and r_[4] >= allrows[i][4] for r_ in allrows):
+                    ok_spec, clause = False, f"rollup level {ln}: a target represents an entity that has a decoy scoring at least as well"
             qcol = "q_value" if "q_value" in t.columns else "q-value"
             qreq = req("qspec", True, [[Fraction(allrows[i][4]), allrows[i][3]] for i, _ in got])
             exp = [rounded(a_rat(x)) for x in dec(common.driver_batch([qreq])[0])] if got else []
             qgot = {meta[x]: float(q) for x, q in list(zip(t[idcol], t[qcol])) + list(zip(dd[idcol], dd[qcol]))}
             if any(qgot[i] != e for (i, _), e in zip(got, exp)):
                 ok_spec, clause = False, f"rollup level {ln}: q-values differ from the C01 formula"
+            # the two files line by line (file order, q-value next to its own row) against the model of the whole run
+            if ln in mrun:
+                lines_t = [(meta[x], float(q)) for x, q in zip(t[idcol], t[qcol])]
+                lines_d = [(meta[x], float(q)) for x, q in zip(dd[idcol], dd[qcol])]
+                if (lines_t, lines_d) != mrun[ln]:
+                    ok_model = False
+            for w, f_ in (("targets", t), ("decoys", dd)):
+                sc = list(f_["score"])
+                if any(a < b for a, b in zip(sc, sc[1:])):
+                    ok_spec, clause = False, f"rollup level {ln}: {w} file not in non-increasing score order"
         for ln, r_ in zip(plan, common.driver_batch(reqs)):
             if r_.strip() != "T":
                 ok_spec, clause = False, f"rollup level {ln}: not exactly one best row per entity"
-        chk.case(None, ("rollup", case["data_seed"]), sample=dict(rollup=case, levels=[ln for ln, _ in present]))
-        chk.count("rollup-tool-levels", len(present))
+        if ok_spec and case.get("rerun"):
+            # outputs of the tool (named after --file_root) must not be taken as inputs: run it twice with the source
+            # directory as destination; the second run must reproduce the files of the run above
+            chk.count("rollup-tool-rerun-in-place", 1)
+            try:
+                tool(src, src); tool(src, src)
+            except (Exception, SystemExit) as e:
+                ok_spec, clause = False, f"second run with destination = source raised {type(e).__name__}"
+            else:
+                for nm in sorted(want_files):
+                    a, b = P.read_result(dest / nm), P.read_result(src / nm)
+                    if b is None or not a.equals(b):
+                        ok_spec, clause = False, f"second run with destination = source changed {nm}"
+        chk.case(None, ("rollup", case["data_seed"], base), sample=dict(rollup=case, levels=sorted(spec_levels)))
+        chk.count("rollup-tool-levels", len(spec_levels)); chk.count("rollup-tool-ties", bool(case.get("tool_ties")))
         if not ok_spec:
-            chk.spec_violation("rollup-tool", dict(case=case, clause=clause, levels=[ln for ln, _ in present]))
+            chk.spec_violation("rollup-tool", dict(case=case, clause=clause, levels=sorted(spec_levels)))
         elif not ok_model:
             chk.corr_break("rolluptool", dict(case=case))
 
 
 def search(chk):
-    for _ in range(60 * chk.budget_mult):
+    for it in range(60 * chk.budget_mult):
         c = gen_case(chk.rng, "thorough")
         c["decoys"] = True
         run_case(chk, c)
+        if it % 4 == 0:
+            run_rollup(chk, gen_rollup(chk.rng))
         if chk.spec_violations:
             return
 
@@ -394,8 +684,21 @@ def main(chk, args):
     n = chk.scale(80 if chk.tier == "quick" else 500)
     for _ in range(n):
         run_case(chk, gen_case(chk.rng, chk.tier))
-    for _ in range(chk.scale(14 if chk.tier == "quick" else 60)):
-        rollup_case(chk, chk.rng)
+    bases = list(ROLLUP_BASES)
+    chk.rng.shuffle(bases)                      # every accepted --level value occurs in every run
+    for i in range(chk.scale(16 if chk.tier == "quick" else 60)):
+        run_rollup(chk, gen_rollup(chk.rng, bases[i % len(bases)]))
+    # one small case per run in which an input file of the tool is certainly not sorted
+    forced = gen_rollup(chk.rng, "psm")
+    forced.update(n_spectra=6, ncoll=1, unsorted=True, parquet=chk.rng.random() < 0.5)
+    run_rollup(chk, forced)
+    # ... and one with many score ties between targets and decoys that share peptide groups
+    tied = gen_rollup(chk.rng, "psm")
+    tied.update(n_spectra=25, ncoll=2, unsorted=False, tool_ties=True, npep=3,
+                levels=sorted(set(tied["levels"]) | {"PeptideGroup"},
+                              key=("ModifiedPeptide", "Precursor", "PeptideGroup").index))
+    run_rollup(chk, tied)
+    rollup_levels_check(chk, chk.rng, chk.scale(50 if chk.tier == "quick" else 400))
     minimise(chk)
     lc = common.leanchecker("C03") if chk.tier == "thorough" else None
     chk.assumptions += [
@@ -404,6 +707,9 @@ def main(chk, args):
         "pandas sort_values/drop_duplicates, CSV/Parquet round trip of integer-valued scores",
         "the k-way merge yields a best-first arrangement of the chunk files (C14)",
         "PEP column not examined here (C06)",
+        "result file names enter the model as (prefix, targets/decoys, level): the map prefix -> file name is assumed "
+        "injective; the header line of a result file is outside the model",
+        "roll-up tool: column names are standardised by the harness's own copy of the documented name map",
     ]
     chk.finish(build, RULE, search=search, lc=lc,
                trusted_extra=["pandas sort_values/drop_duplicates/read_csv/to_csv, pyarrow Parquet, joblib"])
@@ -412,12 +718,21 @@ def main(chk, args):
 def replay(chk, path):
     info = json.loads(open(path).read())
     case = info.get("case")
+    if isinstance(case, dict) and "parents" in case:
+        par = [tuple(x) for x in case["parents"]]
+        impl = P.mod("mokapot.brew_rollup").compute_rollup_levels(case["base"], dict(par))
+        bad = set(impl) != reachable(case["base"], par) or len(set(impl)) != len(impl) or impl[:1] != [case["base"]]
+        print("REPRODUCED rollup-levels" if bad else "not reproduced", impl, sorted(reachable(case["base"], par)))
+        return 1 if bad else 0
     if not isinstance(case, dict) or "n_spectra" not in case:
         print(json.dumps(info, indent=1)[:3000])
         return 0
     common.build_and_audit("C03")
     case["optional"] = tuple(case["optional"])
-    run_case(chk, case)
+    if "base" in case:
+        run_rollup(chk, case)
+    else:
+        run_case(chk, case)
     for sig, i in chk.spec_violations:
         print("REPRODUCED", sig, i.get("clause"))
     return 1 if chk.spec_violations else 0
